@@ -248,3 +248,21 @@ def branch_stats(cases):
         if len(c["xs"]) == 1:
             st["length 1"] = st.get("length 1", 0) + 1
     return st
+
+
+# ---------------------------------------------------------------- exact re-statement of the published definitions
+def mu_exact(cfg, xs):
+    N, t = cfg["N"], cfg["t"]
+    out, S = [], F(0)
+    for j, x in enumerate(xs, start=1):
+        out.append((N * t - S) / (N - j + 1) if N is not None else t)
+        S += x
+    return out
+
+
+def close(a, b, rel=1e-9, ab=1e-12):
+    if math.isnan(a) or math.isnan(b):
+        return math.isnan(a) and math.isnan(b)
+    if math.isinf(a) or math.isinf(b):
+        return a == b
+    return abs(a - b) <= ab + rel * max(abs(a), abs(b))
